@@ -305,13 +305,33 @@ class Verdict:
         return 1 if self.violations else 0
 
 
+def regen_generated(log):
+    """Regenerates lean/FastorModel/Generated/*.lean from the CURRENT /repo tree (translator of the straight-line SIMD code,
+    vlib/xlate_simd.py; ~2 s; files whose text is unchanged are not rewritten).  Every check does this, whichever property it
+    serves, so that the generated definitions the driver links against never describe an earlier state of /repo."""
+    try:
+        from . import xlate_simd, xlate_validate
+        reports = xlate_simd.regenerate(xlate_simd.ISAS, REPO, log)
+        xlate_validate.write_tables(reports, log)
+    except Exception as e:          # the translator itself must never take a check down; C08 reports what it could not translate
+        log.append("regen_generated: %s: %s" % (type(e).__name__, str(e)[:300]))
+
+
+def prop_modules(pid):
+    """Lean modules holding the theorems of property pid: Props/<pid>.lean and Props/<pid><suffix>.lean"""
+    d = os.path.join(LEAN, "FastorModel", "Props")
+    return sorted("FastorModel.Props." + f[:-5] for f in os.listdir(d) if f.endswith(".lean") and (f[:-5] == pid or (f.startswith(pid) and not f[len(pid)].isdigit())))
+
+
 def proof_stage(v, pid, thorough=False, regen=None):
     """build + audit; fills obligations/discharged. Returns (ok, info).  On failure the caller runs the
-    failing-input search and reports."""
+    failing-input search and reports.  Only the modules of THIS property (and what they import) and the driver are built:
+    a change to /repo that breaks a proof obligation of another property must not raise an alarm here."""
     log = []
+    regen_generated(log)
     if regen:
         regen(log)
-    ok, out = lake_build(log=log)
+    ok, out = lake_build(targets=prop_modules(pid) + ["fmodel"], log=log)
     info = {"build_ok": ok, "log": log}
     thms = prop_theorems(pid)
     v.cov["obligations"] = len(thms)
